@@ -50,7 +50,7 @@ fn fill(template: &str, f: &Fill, pick: &dyn Fn(&[String]) -> String) -> String 
 }
 
 pub fn run(args: &Args, out: &mut Streams, dist: &mut Dist, scratch: &Path) {
-  let repo = args.get("repo").unwrap_or("/repo").to_string();
+  let repo = args.get("repo").map(|s| s.to_string()).or_else(|| std::env::var("VERIF_REPO").ok()).unwrap_or("/repo".into());
   let routes = routes(&repo);
   out.emit("crawl.routes", &routes.len().to_string());
   let mut rng = Rng::new(args.seed);
@@ -82,7 +82,7 @@ pub fn run(args: &Args, out: &mut Streams, dist: &mut Dist, scratch: &Path) {
     let f = Fill { id, txid, address, tip: node.tip().to_string() };
     let origin = if rng.chance(1, 2) { Some("https://ord.example") } else { None };
     let hidden = if rng.chance(1, 2) { vec![id] } else { vec![] };
-    let settings = server_settings(&node, ix.dir.path(), flags, &hidden);
+    let settings = server_settings(&node, ix.dir.path(), flags, &hidden, false);
     let server = start_server(settings, ix.index.clone(), origin, rng.chance(1, 2));
     let one = |method: &str, tmpl: &str, path: &str, body: Option<(&str, Vec<u8>)>, ae: Option<&[u8]>, out: &mut Streams, dist: &mut Dist| {
       let m = reqwest::Method::from_bytes(method.as_bytes()).unwrap();
